@@ -177,7 +177,7 @@ func vRunCase10(t *testing.T, c vCase) (msg string) {
 	case "sanity":
 		return vSanity(t)
 	default:
-		return "unknown case kind " + c.Kind
+		return vRunCase11(t, c)
 	}
 	return ""
 }
